@@ -897,6 +897,13 @@ C13_main(const char *tier, const char *replay)
     int          thorough = strcmp(tier, "thorough") == 0;
     static cfg_t cfgs[4];
     int          dmax = thorough ? 8 : 6;
+    /* the enumerated cases first: the deepening search below may use up the whole time allowance */
+    mc_round_begin("ids of two open files in one call");
+    mc_foreach(8, crossfile_case, NULL, 1, 120);
+    mc_round_end();
+    mc_round_begin("two files under long paths with a common prefix");
+    mc_foreach(24, longpath_case, NULL, 1, 120);
+    mc_round_end();
     for (int depth = thorough ? 4 : dmax; depth <= dmax; depth++) {
         char label[48];
         snprintf(label, sizeof label, "depth %d", depth);
@@ -911,11 +918,5 @@ C13_main(const char *tier, const char *replay)
         if (mc_deadline_hit())
             break;
     }
-    mc_round_begin("ids of two open files in one call");
-    mc_foreach(8, crossfile_case, NULL, 1, 120);
-    mc_round_end();
-    mc_round_begin("two files under long paths with a common prefix");
-    mc_foreach(24, longpath_case, NULL, 1, 120);
-    mc_round_end();
     return 0;
 }
